@@ -14,9 +14,23 @@ def _engine(module):
 CACHE_DIR = os.path.join(os.path.dirname(os.path.dirname(os.path.abspath(__file__))), "build", "results")
 
 
+_ENGINE_HASH = None
+
+
+def _engine_hash():
+    global _ENGINE_HASH
+    if _ENGINE_HASH is None:
+        import hashlib, glob
+        h = hashlib.sha256()
+        for p in sorted(glob.glob(os.path.join(os.path.dirname(os.path.abspath(__file__)), "*.py"))):
+            h.update(open(p, "rb").read())
+        _ENGINE_HASH = h.hexdigest()[:16]
+    return _ENGINE_HASH
+
+
 def _cache_path(job):
     import hashlib
-    key = hashlib.sha256(json.dumps(job, sort_keys=True, default=str).encode()).hexdigest()[:32]
+    key = hashlib.sha256((_engine_hash() + json.dumps(job, sort_keys=True, default=str)).encode()).hexdigest()[:32]
     return os.path.join(CACHE_DIR, key + ".json")
 
 
